@@ -35,7 +35,7 @@ def history_of(lines, lno, maxlines=400):
 def report(ctx, pid, res, trace, label, props=None):
     """Turn bad / dev entries of one validation into violations / known findings of this property."""
     props = props or [pid]
-    lines = open(trace).readlines()
+    lines = open(trace).readlines() if any(b["prop"] in props for b in res["bad"]) else []
     seen = {}
     for b in sorted(res["bad"], key=lambda x: x["l"]):
         if b["prop"] not in props:
